@@ -44,4 +44,118 @@ theorem Enc.ofList_spec (vals : List Nat) :
         omega
       · exact ⟨rfl, trivial, fun _ => rfl⟩
 
+
+theorem nodup_of_map {f : Nat → Nat} {l : List Nat} (h : (l.map f).Nodup) : l.Nodup := by
+  unfold List.Nodup at h ⊢
+  rw [List.pairwise_map] at h
+  exact h.imp (fun hne e => hne (by rw [e]))
+
+theorem offset_search (b lim : Nat) (o : List Nat) (hfit : ∀ x ∈ o, x ≤ lim) (hnd : o.Nodup) (v i : Nat) :
+    ((if v < b then none else if v - b > lim then none else o.idxOf? ((v - b) % (lim + 1))) = some i) ↔
+    (o.map (b + ·))[i]? = some v := by
+  rw [List.getElem?_map]
+  by_cases h1 : v < b
+  · simp only [h1, if_true]
+    constructor
+    · intro h; cases h
+    · intro h
+      cases ho : o[i]? with
+      | none => rw [ho] at h; cases h
+      | some x => rw [ho] at h; simp at h; omega
+  · simp only [h1, if_false]
+    by_cases h2 : v - b > lim
+    · simp only [h2, if_true]
+      constructor
+      · intro h; cases h
+      · intro h
+        cases ho : o[i]? with
+        | none => rw [ho] at h; cases h
+        | some x =>
+          rw [ho] at h
+          have := hfit x (List.mem_of_getElem? ho)
+          simp at h; omega
+    · simp only [h2, if_false]
+      rw [Nat.mod_eq_of_lt (by omega), idxOf?_spec o (v - b) i hnd]
+      constructor
+      · intro h; rw [h]; simp; omega
+      · intro h
+        cases ho : o[i]? with
+        | none => rw [ho] at h; cases h
+        | some x => rw [ho] at h; simp at h; congr 1; omega
+
+/-- `EncodedU64Array::binary_search(v)` succeeds exactly on the stored values and returns their index, for every offset
+    width: the range check before the narrowing cast is what makes a probe far above the base miss -/
+theorem Enc.binarySearch_spec (e : Enc) (hfit : e.Fits) (hnd : e.toList.Nodup) (v i : Nat) :
+    e.binarySearch v = some i ↔ e.toList[i]? = some v := by
+  cases e with
+  | u16 b o =>
+    have hnd' : o.Nodup := by
+      simp only [Enc.toList] at hnd
+      exact nodup_of_map hnd
+    exact offset_search b 65535 o hfit hnd' v i
+  | u32 b o =>
+    have hnd' : o.Nodup := by
+      simp only [Enc.toList] at hnd
+      exact nodup_of_map hnd
+    exact offset_search b 4294967295 o hfit hnd' v i
+  | u64 vals => exact idxOf?_spec vals v i hnd
+
+
+theorem Enc.binarySearch_isSome (e : Enc) (hfit : e.Fits) (hnd : e.toList.Nodup) (v : Nat) :
+    (e.binarySearch v).isSome = e.toList.contains v := by
+  apply Bool.eq_iff_iff.2
+  rw [Option.isSome_iff_exists]
+  simp only [List.contains_eq_mem, decide_eq_true_eq]
+  constructor
+  · rintro ⟨i, hi⟩
+    exact List.mem_of_getElem? ((e.binarySearch_spec hfit hnd v i).1 hi)
+  · intro hm
+    obtain ⟨i, hi⟩ := List.mem_iff_getElem?.1 hm
+    exact ⟨i, (e.binarySearch_spec hfit hnd v i).2 hi⟩
+
+/-- an array stored with an explicit offset width holds the values and its offsets fit -/
+theorem Enc.withWidth_spec (w : Nat) (vals : List Nat) (e : Enc) (h : Enc.withWidth w vals = some e) :
+    e.toList = vals ∧ e.Fits := by
+  cases vals with
+  | nil =>
+    simp only [Enc.withWidth, listMin, listMax] at h
+    split at h
+    · cases h; exact ⟨rfl, trivial⟩
+    · cases h
+  | cons a t =>
+    have hmin := foldl_min_le t a
+    have hmax := foldl_max_ge t a
+    have hle : ∀ x ∈ a :: t, t.foldl min a ≤ x ∧ x ≤ t.foldl max a := by
+      intro x hx
+      rcases List.mem_cons.1 hx with rfl | hx'
+      · exact ⟨hmin.1, hmax.1⟩
+      · exact ⟨hmin.2 x hx', hmax.2 x hx'⟩
+    have hback : (List.map (fun x => t.foldl min a + x) (List.map (fun x => x - t.foldl min a) (a :: t))) = a :: t := by
+      rw [List.map_map]
+      conv => rhs; rw [← List.map_id (a :: t)]
+      apply List.map_congr_left
+      intro x hx
+      have := (hle x hx).1
+      simp only [Function.comp, id]
+      omega
+    have hfits : ∀ lim, t.foldl max a - t.foldl min a ≤ lim →
+        ∀ x ∈ List.map (fun x => x - t.foldl min a) (a :: t), x ≤ lim := by
+      intro lim hl x hx
+      rw [List.mem_map] at hx
+      obtain ⟨y, hy, rfl⟩ := hx
+      have := hle y hy
+      omega
+    simp only [Enc.withWidth, listMin, listMax] at h
+    split at h
+    · split at h
+      · cases h; rename_i hl; exact ⟨hback, hfits _ hl⟩
+      · cases h
+    · split at h
+      · split at h
+        · cases h; rename_i hl; exact ⟨hback, hfits _ hl⟩
+        · cases h
+      · split at h
+        · cases h; exact ⟨rfl, trivial⟩
+        · cases h
+
 end LanceModel.C34
